@@ -27,8 +27,13 @@ BOUNDED = {
     r'^targets': 'lists of 1..3 target files (possibly repeated)',
     r'^build_processors': '1..2 input arguments with 1..3 values each',
     r'^init': 'non-time-domain targets',
+    r'^run_evolve': '1..3 evolutions, with and without best individuals, no result fit range',
+    r'^resimulation\.pairs': '2 islands x 1 or 3 processors',
+    r'^extract': 'result tables of 2 rows',
 }      # unit-name / obligation-name patterns -> the family these obligations are proved for
-TRUSTED = ["np.nansum / ndarray.sum are abstract reductions: the contract pins the summand at an arbitrary index and the shape",
+TRUSTED = ["reporting path (run_evolve, apply_parameters_to_processors, extract_data_3d): pygmo / xarray / pandas / dask objects are boundary objects; the obligations are about "
+           "provenance (which call produced what reaches which node), the libraries doing what their names say is assumed (contracts/calibreport.py)",
+           "np.nansum / ndarray.sum are abstract reductions: the contract pins the summand at an arbitrary index and the shape",
            "machine arithmetic treated as mathematical (real mode) in the fitness formulas",
            "pygmo's champion bookkeeping (champion fitness never gets worse) is outside: external C++ library",
            "iterating all_target_data yields its slices along 'processor' in order; xarray isel / getitem select what their arguments say (boundary)",
@@ -602,3 +607,10 @@ def resimulation(u: Unit):
         u.oblige(p, "resimulation.same_exposure_as_fitness", bool(same), {}, FIT_REPLAY)
         u.oblige(p, "resimulation.returns_that_run", bool(isinstance(p.value, VOpaque) and p.value.t is not None and z3.eq(p.value.t, FM.RUN(FM.UPD(z3.Int("reported_parameters"), z3.Int("some_processor"))))), {}, FIT_REPLAY)
     u.cover("resimulation.cover", ps, lambda p: p.kind == "return")
+
+
+# run_evolve: which evolution's champions are reported, what is re-simulated, which node holds what (provenance obligations)
+from . import calibreport as _CR  # noqa: E402
+unit("C11", "run_evolve")(_CR.evolve_unit)
+unit("C11", "resimulation.pairs")(_CR.pairs_unit)
+unit("C11", "extract")(_CR.extract_unit)
